@@ -415,9 +415,13 @@ class WSGITask(Task):
                     "carriage return/line feed character present in status"
                 )
 
-            self.status = status
+            # keep exact str objects: what a str subclass formats to (its
+            # __str__ / __format__) need not be the content checked here
+            self.status = str.__str__(status)
 
             # Prepare the headers for output
+            validated = []
+
             for k, v in headers:
                 if not isinstance(k, str):
                     raise AssertionError(
@@ -445,10 +449,11 @@ class WSGITask(Task):
                         '%s is a "hop-by-hop" header; it cannot be used by '
                         "a WSGI application (see PEP 3333)" % k
                     )
+                validated.append((str.__str__(k), str.__str__(v)))
 
             # keep what was validated: copy the items, an application may
             # pass (and later change) mutable [name, value] lists
-            self.response_headers.extend((k, v) for k, v in headers)
+            self.response_headers.extend(validated)
 
             # Return a method used to write the response data.
             return self.write
